@@ -124,6 +124,7 @@ def check(ctx):
                     ref = ctx.call_func(I2, s2, "ref.selection_ref.y_sample_residual", yref, Xref, ys, Xs, nsel, tol)
                 ctx.compare("R-ROLE", f"PCovCUR.{pkg}: y_current_ = y minus its fit on the selected {'columns' if axis == 1 else 'samples only'}", N, ctx.attr(st, o, "y_current_"), ref, site, pkg)
     cadence(ctx, N)
+    orthogonalizer_utils(ctx, N)
     # ---------------- cold initialisation: residual is a copy, scores from it ------------------------
     for pkg, axis, S in (("feature", 1, "M"), ("sample", 0, "N")):
         for cname in ("CUR", "PCovCUR"):
@@ -231,3 +232,28 @@ def cadence(ctx, N, RULE="R-CADENCE"):
                 else:
                     ok = piv.term.op == "PI" and piv.term.args[0] == ctx.attr(st, o, "X_current_").term
                     ctx.ob(RULE, f"{cfg}: warm start refreshes the scores from the current residual", ok, f"pi_ after warm start = {piv.term!r}", site, cfg)
+
+
+def orthogonalizer_utils(ctx, N):
+    """the public orthogonaliser helpers, both copy modes: same residual; copy=True leaves the argument alone"""
+    P = ctx.P
+    tol = scalar("tol", 0, None)
+    for copy in (True, False):
+        y, X = arr("y", "N", "P"), arr("Xs", "N", "Q")
+        f = P.func("skmatter.utils.Y_feature_orthogonalizer")
+        I, st = ctx.interp(), State()
+        r = ctx.call_func(I, st, f, y, X, tol=tol, copy=copy)
+        I2, s2 = ctx.interp(), State()
+        ref = ctx.call_func(I2, s2, "ref.selection_ref.y_feature_residual", y, X, tol)
+        ctx.compare("R-ROLE", f"Y_feature_orthogonalizer(copy={copy}) = y minus its fit on the given columns", N, r, ref, ctx.site(f), f"copy={copy}")
+        muts = [e for e in I.events if e["kind"] == "mutate" and ("in", "y") in e["target"].orig]
+        ctx.ob("R-ROLE", f"Y_feature_orthogonalizer(copy={copy}) {'leaves y untouched' if copy else 'updates y in place'}", bool(muts) != copy, f"{len(muts)} in-place updates of y", ctx.site(f), f"copy={copy}")
+        f = P.func("skmatter.utils.Y_sample_orthogonalizer")
+        yr, Xr, Xa = arr("y_ref", "Q", "P"), arr("X_ref", "Q", "M"), arr("Xa", "N", "M")
+        I, st = ctx.interp(), State()
+        r = ctx.call_func(I, st, f, y, Xa, yr, Xr, tol=tol, copy=copy)
+        I2, s2 = ctx.interp(), State()
+        ref = ctx.call_func(I2, s2, "ref.selection_ref.y_sample_residual", y, Xa, yr, Xr, integer("Q"), tol)
+        ctx.compare("R-ROLE", f"Y_sample_orthogonalizer(copy={copy}) = y minus the prediction of the reference fit", N, r, ref, ctx.site(f), f"copy={copy}")
+        muts = [e for e in I.events if e["kind"] == "mutate" and ("in", "y") in e["target"].orig]
+        ctx.ob("R-ROLE", f"Y_sample_orthogonalizer(copy={copy}) {'leaves y untouched' if copy else 'updates y in place'}", bool(muts) != copy, f"{len(muts)} in-place updates of y", ctx.site(f), f"copy={copy}")
